@@ -2193,7 +2193,7 @@ static void remove_sent (object_t * ob, object_t * user) {
 static int find_line (const char *p, const program_t * progp, char **ret_file, int *ret_line) {
   int offset;
   unsigned char *lns;
-  short abs_line;
+  unsigned short abs_line; /* the stored 16 bits are the absolute line modulo 65536; reading them signed made lines above 32767 negative */
   int file_idx;
 
   *ret_file = "";
